@@ -1,5 +1,6 @@
 import RoaringModel.Lemmas.CodecWF
 import RoaringModel.Lemmas.Parser
+import RoaringModel.Lemmas.RoundTrip
 /-!
 # C05 — serialization is exact, deterministic and format-conformant (32-bit half)
 -/
@@ -12,6 +13,20 @@ theorem C05_size (b : Bitmap) (h : BitmapWF b) : (Bitmap.serialize b).length = B
   simp only [List.length_append, u32le_length, descrBytes_length, offsetBytes_length,
     payloadBytes_length b (fun c hc => (h.2 c hc).2), serializedSize_eq]
   omega
+
+/-- Decoding the output with `deserialize_from` (`chk = true`) or `deserialize_unchecked_from` (`chk = false`),
+    in either build configuration, returns a value structurally equal to the original (hence `==`), and
+    leaves untouched whatever follows the serialisation in the stream. -/
+theorem C05_decode (chk dbg : Bool) (b : Bitmap) (h : BitmapWF b) (rest : List Nat) :
+    deserialize chk dbg (Bitmap.serialize b ++ rest) = .ok (b, rest) :=
+  deserialize_serialize chk dbg b h rest
+
+/-- the derived `==` of the model agrees: a value equals itself -/
+theorem C05_decode_eq (chk dbg : Bool) (b : Bitmap) (h : BitmapWF b) :
+    ∃ b', deserialize chk dbg (Bitmap.serialize b) = .ok (b', []) ∧ b' = b := by
+  refine ⟨b, ?_, rfl⟩
+  have := C05_decode chk dbg b h []
+  simpa using this
 
 /-- a two-chunk value with one array chunk and one chunk key at the top of the key space meets `BitmapWF` -/
 example : BitmapWF [{ key := 0, store := .array [1, 5, 65535] }, { key := 65535, store := .array [0] }] := by
